@@ -1,0 +1,1 @@
+//! Read-only views of crate-private state, for the simulator's oracles.
